@@ -16,6 +16,7 @@ import (
 	"strings"
 	"time"
 
+	"github.com/magisterquis/curlrevshell/internal/iobroker"
 	"github.com/magisterquis/curlrevshell/lib/opshell"
 	"github.com/magisterquis/curlrevshell/verifx/ev"
 	"github.com/magisterquis/curlrevshell/verifx/hworld"
@@ -443,4 +444,64 @@ func c04ManyShells(r *ev.Result, shells int) {
 	r.Add(n)
 	r.Traces += n
 	r.Set("shells_in_series_through_the_handlers", n)
+}
+
+// c04Events: the server as the program builds it, with and without
+// -one-shell, and a second event listener next to the server's own: one shell
+// attaches and ends; the listener hears of one connection and one
+// disconnection.
+func c04Events(r *ev.Result) {
+	n := 0
+	for _, oneShell := range []bool{false, true} {
+		for _, kind := range []string{"uni", "io"} {
+			w, err := hworld.Start(hworld.Config{OneShell: oneShell})
+			if nil != err {
+				ev.Broken("%s", err)
+			}
+			evl := make(chan iobroker.Event, 64)
+			w.B.AddEventListener(evl)
+			in, out, err := attachShell(w, kind, "evk")
+			if nil != err {
+				w.Stop()
+				ev.Broken("c04 events: %s", err)
+			}
+			if oneShell {
+				time.Sleep(300 * time.Millisecond) /* The listener closes meanwhile. */
+			}
+			out.Send("0\r\n\r\n")
+			_, gone := w.WaitNotice(func(cl opshell.CLine) bool { return strings.Contains(cl.Line, "Shell is gone") })
+			in.Close()
+			out.Close()
+			var got []string
+			deadline := time.After(hworld.Watchdog)
+		collect:
+			for len(got) < 2 {
+				select {
+				case e := <-evl:
+					got = append(got, string(e.Type))
+				case <-deadline:
+					break collect
+				}
+			}
+			time.Sleep(50 * time.Millisecond)
+			for more := true; more; {
+				select {
+				case e := <-evl:
+					got = append(got, string(e.Type))
+				default:
+					more = false
+				}
+			}
+			w.Stop()
+			n++
+			if want := []string{string(iobroker.EventTypeConnected), string(iobroker.EventTypeDisconnected)}; gone && fmt.Sprint(got) != fmt.Sprint(want) {
+				r.Violate(ev.Violation{Signature: fmt.Sprintf("http/events/one-shell=%v", oneShell), Kind: "c04http", Replay: map[string]any{"one_shell": oneShell, "kind": kind},
+					What: fmt.Sprintf("server built with one-shell=%v, a %s shell attached and ended (announced gone to the operator): an event listener heard %v, want %v", oneShell, kind, got, want)})
+			}
+		}
+	}
+	r.Add(n)
+	r.AddDistinct(n)
+	r.Traces += n
+	r.Set("event_listener_sessions", n)
 }
